@@ -54,10 +54,12 @@ type Ctx struct {
 	ReplayIndex int64
 	Verbose     bool
 
+	marker   []byte // mmap'd in-flight marker: survives a SIGKILL of the worker
 	seen     map[uint64]struct{}
 	outcomes map[uint64]struct{}
 	deadline time.Time
 	sampleN  int
+	tick     int64
 	sigSeen  map[string]int
 }
 
@@ -94,7 +96,45 @@ func (c *Ctx) Mine(scope string, idx int64, key uint64) bool {
 	}
 	c.seen[key] = struct{}{}
 	c.R.Distinct++
+	c.Begin(scope, idx)
 	return true
+}
+
+// Begin records the case about to be executed in the in-flight marker, so that a worker that
+// dies (out of memory, stack overflow, watchdog) still names the case that killed it.
+func (c *Ctx) Begin(scope string, idx int64) {
+	if c.marker == nil {
+		return
+	}
+	n := copy(c.marker[8:], scope)
+	c.marker[0] = byte(n)
+	c.marker[1] = byte(n >> 8)
+	for i := 0; i < 6; i++ {
+		c.marker[2+i] = byte(uint64(idx) >> (8 * uint(i)))
+	}
+	c.tick++
+}
+
+// SetMarker installs the mmap'd marker buffer (>= 520 bytes).
+func (c *Ctx) SetMarker(b []byte) { c.marker = b }
+
+// Tick is incremented by Begin; the watchdog uses it to detect a case that never ends.
+func (c *Ctx) Tick() int64 { return c.tick }
+
+// DecodeMarker reads back (scope, idx) from a marker buffer.
+func DecodeMarker(b []byte) (string, int64) {
+	if len(b) < 8 {
+		return "", -1
+	}
+	n := int(b[0]) | int(b[1])<<8
+	if n == 0 || 8+n > len(b) {
+		return "", -1
+	}
+	var idx uint64
+	for i := 0; i < 6; i++ {
+		idx |= uint64(b[2+i]) << (8 * uint(i))
+	}
+	return string(b[8 : 8+n]), int64(idx)
 }
 
 // MineIdx shards by index (for scopes whose cases are distinct by construction).
@@ -106,6 +146,7 @@ func (c *Ctx) MineIdx(scope string, idx int64) bool {
 		return false
 	}
 	c.R.Distinct++
+	c.Begin(scope, idx)
 	return true
 }
 
